@@ -47,7 +47,10 @@ type sender struct {
 }
 
 func instFor(ip string) *gostatsd.Instance {
-	return &gostatsd.Instance{ID: gostatsd.Source("i-" + ip), Tags: gostatsd.Tags{"az:" + ip, "shared:tag"}}
+	return &gostatsd.Instance{ID: gostatsd.Source("i-" + ip), Tags: gostatsd.Tags{"az:" + ip, "shared:tag",
+		// keys that event lines of the generator also use (as "a", "k:v", "env:..." ...): a cloud tag is added whatever the event
+		// already says under that key
+		"a:cloud", "k:cloud", "env:cloud"}}
 }
 
 func key(e *gostatsd.Event) string {
